@@ -213,6 +213,11 @@ TRecvRet == /\ Is("recvRet") /\ Adv /\ Keep
                THEN inbox[E] # <<>> /\ Head(inbox[E]) = Ev.m /\ AppRecv(E)
                ELSE Stutter
 
+\* what Recv returned belongs to the application: at the end of the run every
+\* message it kept still reads as it did when it was returned (nothing is
+\* altered after delivery either)
+TRecvKept == /\ Is("recvKept") /\ Adv /\ Keep /\ Stutter /\ Ev.bad = 0
+
 \* events that carry no data-phase state change
 \* C09: a Send call returned.  In a silent-peer scenario the first N calls
 \* must have returned without waiting.
@@ -249,7 +254,7 @@ TraceNext ==
     \/ TReset \/ TPing \/ TAdd \/ TTxData \/ TTxAck \/ TTxNack \/ TTxOther
     \/ TInj \/ TDeq \/ TRx \/ TRSeq \/ TNackSupp \/ TAck \/ TAckEmpty \/ TNack
     \/ TFull \/ TWake \/ TResend \/ TResendSkip \/ TSyncWait \/ TSyncDone
-    \/ TRecvRet \/ TSendRet \/ TProbe \/ TInfo \/ TEnd
+    \/ TRecvRet \/ TRecvKept \/ TSendRet \/ TProbe \/ TInfo \/ TEnd
 
 TraceSpec == TraceInit /\ [][TraceNext]_tvars
 
